@@ -11,6 +11,10 @@ import GMModel.Routing
     optpairs := 0 | 1 pairs
     optints  := 0 | 1 n { int }
     prepout  := nocall | call swapped <n fixedIdx…> <n mobileIdx…> pairs <n deform…> nsteps
+    molid    := label name natoms { resname atomname index top_resid }      (label: the harness' number of the object)
+    setarg   := N | X | M molid                                             (None | not a Molecule | a Molecule)
+    setop    := S setarg | E setarg
+    optlabel := - | label
 -/
 
 namespace DRestr
@@ -107,7 +111,7 @@ def wrRoute (r : RouteOut Nat) : String :=
   | none => s!"{calls} noerr"
   | some e => s!"{calls} err {err e}"
 
-def handle : Handler
+def handle1 : Handler
   | "c10_element" => some do
       let name ← Rd.str; Rd.done
       match element name.toList with
@@ -152,5 +156,111 @@ def handle : Handler
       Rd.done
       pure s!"ok {wrRoute (managerAlignPreparsed sys r d h)}"
   | _ => none
+
+/-- a molecule as the setters see it: the harness' label of the object and what `__eq__` compares -/
+abbrev LMol := Nat × MolId
+
+def rdAtomId : Rd AtomId := do
+  let rn ← Rd.str; let an ← Rd.str; let i ← Rd.int; let r ← Rd.int
+  pure ⟨rn.toList, an.toList, i, r⟩
+
+def rdMolId : Rd LMol := do
+  let label ← Rd.nat
+  let name ← Rd.str
+  let atoms ← Rd.listOf rdAtomId
+  pure (label, ⟨name.toList, atoms⟩)
+
+def rdSetArg : Rd (SetArg LMol) := do
+  match (← Rd.tok) with
+  | "N" => pure .none
+  | "X" => pure .nonMolecule
+  | "M" => pure (.mol (← rdMolId))
+  | t => throw s!"bad setter argument kind '{t}'"
+
+def rdSetOp : Rd (SetOp LMol) := do
+  match (← Rd.tok) with
+  | "S" => pure (.start (← rdSetArg))
+  | "E" => pure (.end_ (← rdSetArg))
+  | t => throw s!"bad setter op kind '{t}'"
+
+def wrLabel : Option LMol → String
+  | none => "-"
+  | some m => toString m.1
+
+def wrState (st : AliState LMol) : String := s!"{wrLabel st.start} {wrLabel st.end_}"
+
+def wrOutcome : Option PyErr → String
+  | none => "noerr"
+  | some e => err e
+
+def handle2 : Handler
+  | "c10_parse_guess" => some do
+      let sys ← Rd.listOf rdSpecies
+      let r ← rdOpt (rdDict rdRestrArg)
+      let g ← Rd.bool
+      Rd.done
+      match parseRestrictionsG sys r g with
+      | .error e => pure s!"err {err e}"
+      | .ok d =>
+        let item := fun (kv : PStr × Option (List Pair)) =>
+          match kv.2 with
+          | none => s!"{Wr.str (String.ofList kv.1)} 0"
+          | some l => s!"{Wr.str (String.ofList kv.1)} 1 {wrPairs l}"
+        pure s!"ok {Wr.list item d}"
+  | "c10_route_guess" => some do
+      let sys ← Rd.listOf rdSpecies
+      let r ← rdOpt (rdDict rdRestrArg)
+      let d ← rdOpt (rdDict rdDefArg)
+      let h ← rdOpt (rdDict rdIgnArg)
+      let g ← Rd.bool
+      Rd.done
+      pure s!"ok {wrRoute (managerAlignGuess sys r d h g)}"
+  | "c10_setops" => some do
+      -- `Alignment(start, end)` followed by a history of assignments, each in its own `try`
+      let s0 ← rdSetArg; let e0 ← rdSetArg
+      let ops ← Rd.listOf rdSetOp
+      Rd.done
+      match newAlignment (·.2) s0 e0 with
+      | .error e => pure s!"err {err e}"
+      | .ok st =>
+        let r := runOps (·.2) st ops
+        pure s!"ok {wrState st} {wrState r.1} {Wr.list wrOutcome r.2}"
+  | "c10_align_state" => some do
+      let s ← rdOpt rdMol; let e ← rdOpt rdMol
+      let r ← rdOpt (Rd.listOf rdPair)
+      let d ← rdOpt (Rd.listOf Rd.int)
+      let ign ← Rd.bool; let auto ← Rd.bool; Rd.done
+      match alignMolecules ⟨s, e⟩ r d ign auto with
+      | .ok out => pure s!"ok {wrPrep out}"
+      | .error e => pure s!"err {err e}"
+  | "c10_add_end" => some do
+      let corr ← Rd.listOf (do
+        let k ← Rd.str
+        let s ← rdOpt rdMolId
+        let e ← rdOpt rdMolId
+        pure (k.toList, (⟨s, e⟩ : AliState LMol)))
+      let a ← rdSetArg
+      Rd.done
+      match addEndMolecule (·.2) corr a with
+      | .error e => pure s!"err {err e}"
+      | .ok c =>
+        pure s!"ok {Wr.list (fun (kv : PStr × AliState LMol) => s!"{Wr.str (String.ofList kv.1)} {wrState kv.2}") c}"
+  | "c10_add_ends" => some do
+      let corr ← Rd.listOf (do
+        let k ← Rd.str
+        let s ← rdOpt rdMolId
+        let e ← rdOpt rdMolId
+        pure (k.toList, (⟨s, e⟩ : AliState LMol)))
+      let args ← Rd.listOf rdSetArg
+      Rd.done
+      let r := addEndMolecules (·.2) corr args
+      pure s!"ok {Wr.list (fun (kv : PStr × AliState LMol) => s!"{Wr.str (String.ofList kv.1)} {wrState kv.2}") r.1} {wrOutcome r.2}"
+  | _ => none
+
+/-- all C10 ops (registered in `Driver/Main.lean` as `DRestr.handle`) -/
+def handle : Handler := fun op =>
+  match handle1 op with
+  | some r => some r
+  | none => handle2 op
 
 end DRestr
